@@ -1,4 +1,4 @@
-"""C19 - 64-bit integers survive untouched (number-as-string exactness: not applicable, see DESIGN)"""
+"""C19 - 64-bit integers survive untouched; number-as-string functions against exact rational arithmetic (the crate itself trusted)"""
 from ..scen_parser import tokenizer, selfcheck
 
 DIG = [ord(c) for c in '0123456789']
@@ -23,3 +23,5 @@ def run(ctx):
     print_numbers(ctx)        # printing hands the integer to Display unchanged, in json, text and csv output
     from ..scen_misc import sort_functions
     sort_functions(ctx)       # sort / sort_unique keep every integer (duplicates are removed with ==, not through an ordered set keyed by f64)
+    from ..scen_nas import nas_wiring
+    nas_wiring(ctx)           # number-as-string functions: bigdecimal as exact rationals (z3 Real); the wiring is jawk's and is decided, the crate is trusted
